@@ -32,19 +32,22 @@ Definition join_facts (id : Z) (fs : list fact) (s0 : st) : st :=
   fold_left (fun acc f => if Z.eqb (snd (fst f)) id then st_max acc (snd f) else acc) fs s0.
 
 Inductive astep : asys -> asys -> Prop :=
-(* instance i processes an input: its statuses only grow, and every changed status is announced
-   (announcing unchanged ones as well is harmless) *)
-| A_local_emit i (a : asys) (new : Z -> st) (ids : list Z) :
-    (forall id, st_le (a_status a i id) (new id) = true) ->
-    (forall id, new id <> a_status a i id -> In id ids) ->
-    astep a (mkA (fun k id => if Nat.eqb k i then new id else a_status a k id)
-                 (a_emitted a ++ map (fun id => (i, id, new id)) ids))
+(* instance i processes an input: its statuses only grow, nobody else changes, and every changed status is
+   announced (announcing more - unchanged or older statuses - is harmless) *)
+| A_local i (a b : asys) (extra : list fact) :
+    (forall id, st_le (a_status a i id) (a_status b i id) = true) ->
+    (forall k id, k <> i -> a_status b k id = a_status a k id) ->
+    (forall id, a_status b i id <> a_status a i id -> In (i, id, a_status b i id) extra) ->
+    a_emitted b = a_emitted a ++ extra ->
+    astep a b
 (* instance j handles a message: ANY list of facts announced earlier (this covers delay, reordering,
    duplication, the backlog merge and snapshots); each run's status becomes the maximum *)
-| A_deliver j (a : asys) (m : list fact) :
+| A_deliver j (a b : asys) (m : list fact) :
     (forall f, In f m -> In f (a_emitted a)) ->
-    astep a (mkA (fun k id => if Nat.eqb k j then join_facts id m (a_status a k id) else a_status a k id)
-                 (a_emitted a)).
+    (forall id, a_status b j id = join_facts id m (a_status a j id)) ->
+    (forall k id, k <> j -> a_status b k id = a_status a k id) ->
+    a_emitted b = a_emitted a ->
+    astep a b.
 
 Inductive asteps : asys -> asys -> Prop :=
 | AS_refl a : asteps a a
